@@ -29,7 +29,7 @@ Cfgs == [sc : Scenarios, iv : Ivs, thr : Thrs]
 Idx(id) == id \div 10
 
 P0 == [call |-> "none", on |-> FALSE, n |-> 0, lastT |-> 0, sbT |-> 0, may |-> FALSE, must |-> FALSE, sSeen |-> FALSE,
-       kSeen |-> FALSE, early |-> FALSE, infl |-> 0]
+       kSeen |-> FALSE, early |-> FALSE, infl |-> 0, pendF |-> FALSE]
 G0 == [evB |-> 0, evE |-> 0, downB |-> FALSE, downE |-> FALSE]
 Init == /\ cfg \in Cfgs /\ P = [i \in Ids |-> P0] /\ G = G0 /\ ev = [op |-> "reset", cfg |-> cfg]
 
@@ -37,6 +37,11 @@ Max2(a, b) == IF a > b THEN a ELSE b
 (* ticks of the current run of id's ticker, counting the Tick of a StartTicker that announced the ticker but has not ticked yet *)
 Cnt(p) == p.n + (IF p.call = "S" /\ p.sSeen /\ ~p.kSeen THEN 1 ELSE 0)
 Limit == cfg.thr + 2
+AtLimit(p) == p.on /\ Cnt(p) = Limit
+FinalOK(s) == /\ \A i \in Ids : (P[i].on /\ ~AtLimit(P[i])) => i \in ToSet(s.has)
+              /\ \A i \in ToSet(s.has) : i \in Ids /\ P[i].on
+              /\ s.has = SetToSortSeq(ToSet(s.has), <) /\ s.size = Len(s.has)
+              /\ (~G.downB => s.has = <<>>)
 
 (* retry tick: the three ways the contract allows one *)
 RetryRegular(p, s) == /\ p.on /\ ~G.downE /\ Cnt(p) < Limit /\ s.t - p.lastT >= cfg.iv
@@ -51,11 +56,13 @@ Do(s) ==
                                               !.may = (G.evE < Idx(s.id) /\ ~G.downE),
                                               !.must = (~p.on /\ G.evB < Idx(s.id) /\ ~G.downB)]]
     [] s.op = "started" -> LET p == P[s.id] IN
-         /\ p.call = "S" /\ p.may /\ ~p.sSeen /\ (~p.on \/ p.early) /\ UNCHANGED <<cfg, G>> /\ ev' = s
+         \* (AtLimit: the ticker has ticked N + 2 times, so it may have failed already - TickerFailed is triggered after the
+         \*  ticker was unregistered and its hook may be logged late; pendF remembers that this event is still to come)
+         /\ p.call = "S" /\ p.may /\ ~p.sSeen /\ (~p.on \/ p.early \/ AtLimit(p)) /\ UNCHANGED <<cfg, G>> /\ ev' = s
          /\ P' = [P EXCEPT ![s.id] =
                     IF p.early THEN [p EXCEPT !.sSeen = TRUE]
                     ELSE IF G.evE >= Idx(s.id) THEN [p EXCEPT !.sSeen = TRUE, !.infl = 1]   \* registered, evicted meanwhile
-                    ELSE [p EXCEPT !.sSeen = TRUE, !.on = TRUE, !.n = 0, !.lastT = p.sbT]]
+                    ELSE [p EXCEPT !.sSeen = TRUE, !.on = TRUE, !.n = 0, !.lastT = p.sbT, !.pendF = (p.pendF \/ p.on)]]
     [] s.op = "tick" /\ s.src = "start" -> LET p == P[s.id] IN
          /\ p.call = "S" /\ p.sSeen /\ ~p.kSeen /\ UNCHANGED <<cfg, G>> /\ ev' = s
          /\ (p.on => p.n < Limit)
@@ -68,8 +75,13 @@ Do(s) ==
                     IF G.evE >= Idx(s.id) THEN [p EXCEPT !.early = TRUE]      \* registered and evicted meanwhile: its last retry
                     ELSE [p EXCEPT !.on = TRUE, !.early = TRUE, !.n = 1, !.lastT = s.t]]
     [] s.op = "failed" -> LET p == P[s.id] IN
-         /\ p.on /\ ~G.downE /\ Cnt(p) = Limit /\ UNCHANGED <<cfg, G>> /\ ev' = s
-         /\ P' = [P EXCEPT ![s.id] = [p EXCEPT !.on = FALSE, !.infl = 0]]
+         /\ ~G.downE /\ UNCHANGED <<cfg, G>> /\ ev' = s
+         /\ \/ /\ p.on /\ AtLimit(p)
+               \* (inside a StartTicker call that already announced and ticked: the ticker may be registered once more by a
+               \*  second caller of the same composite call, see doubleStart)
+               /\ P' = [P EXCEPT ![s.id] = [p EXCEPT !.on = FALSE, !.infl = 0, !.must = FALSE,
+                                                    !.sSeen = IF p.kSeen THEN FALSE ELSE @, !.kSeen = FALSE]]
+            \/ /\ p.pendF /\ P' = [P EXCEPT ![s.id] = [p EXCEPT !.pendF = FALSE]]
     [] s.op = "se" -> LET p == P[s.id] IN
          /\ p.call = "S" /\ (p.must => p.sSeen) /\ (p.sSeen <=> p.kSeen) /\ (p.early => p.sSeen)
          /\ UNCHANGED <<cfg, G>> /\ ev' = s
@@ -81,20 +93,28 @@ Do(s) ==
          /\ p.call = "X" /\ p.on /\ UNCHANGED <<cfg, G>> /\ ev' = s
          /\ P' = [P EXCEPT ![s.id] = [p EXCEPT !.on = FALSE, !.infl = 1]]
     [] s.op = "xe" -> LET p == P[s.id] IN
-         \* (a ticker that is still listed here was removed by an EvictUntil whose return is not logged yet)
-         /\ p.call = "X" /\ (~p.on \/ G.evB >= Idx(s.id)) /\ UNCHANGED <<cfg, G>> /\ ev' = s
-         /\ P' = [P EXCEPT ![s.id] = [p EXCEPT !.call = "none", !.on = FALSE, !.infl = IF p.on THEN 1 ELSE @]]
-    [] s.op = "eb" -> /\ UNCHANGED <<cfg, P>> /\ G' = [G EXCEPT !.evB = Max2(@, s.i)] /\ ev' = s
+         \* (a ticker that is still listed here was removed by an EvictUntil whose return is not logged yet, or it failed
+         \*  after its last tick and the TickerFailed hook is not logged yet)
+         /\ p.call = "X" /\ (~p.on \/ G.evB >= Idx(s.id) \/ AtLimit(p)) /\ UNCHANGED <<cfg, G>> /\ ev' = s
+         /\ P' = [P EXCEPT ![s.id] = [p EXCEPT !.call = "none", !.on = FALSE,
+                                              !.infl = IF p.on /\ ~AtLimit(p) THEN 1 ELSE @,
+                                              !.pendF = (p.pendF \/ (p.on /\ G.evB < Idx(s.id)))]]
+    \* (a StartTicker that is in progress when an eviction / the shutdown begins need not succeed any more)
+    [] s.op = "eb" -> /\ UNCHANGED cfg /\ G' = [G EXCEPT !.evB = Max2(@, s.i)] /\ ev' = s
+                      /\ P' = [i \in Ids |-> IF Idx(i) <= s.i THEN [P[i] EXCEPT !.must = FALSE] ELSE P[i]]
     [] s.op = "ee" -> /\ G.evB >= s.i /\ UNCHANGED cfg /\ G' = [G EXCEPT !.evE = Max2(@, s.i)] /\ ev' = s
-                      /\ P' = [i \in Ids |-> IF Idx(i) <= s.i /\ P[i].on
-                                             THEN [P[i] EXCEPT !.on = FALSE, !.infl = 1] ELSE P[i]]
-    [] s.op = "db" -> /\ UNCHANGED <<cfg, P>> /\ G' = [G EXCEPT !.downB = TRUE] /\ ev' = s
+                      \* (not the tickers whose StopTicker is in progress: that call may have removed the ticker first, its
+                      \*  TickerStopped hook is then logged late - "xe" closes them; a ticker that had its last tick may have
+                      \*  failed before the eviction, its TickerFailed hook is then still to come)
+                      /\ P' = [i \in Ids |-> IF Idx(i) <= s.i /\ P[i].on /\ P[i].call # "X"
+                                             THEN [P[i] EXCEPT !.on = FALSE, !.infl = 1, !.pendF = (@ \/ AtLimit(P[i]))] ELSE P[i]]
+    [] s.op = "db" -> /\ UNCHANGED cfg /\ G' = [G EXCEPT !.downB = TRUE] /\ ev' = s
+                      /\ P' = [i \in Ids |-> [P[i] EXCEPT !.must = FALSE]]
     [] s.op = "de" -> /\ G.downB /\ UNCHANGED <<cfg, P>> /\ G' = [G EXCEPT !.downE = TRUE] /\ ev' = s
     [] s.op = "final" ->
          /\ s.hung = <<>> /\ \A i \in Ids : P[i].call = "none"
-         /\ s.has = SetToSortSeq({i \in Ids : P[i].on}, <)
-         /\ s.size = Cardinality({i \in Ids : P[i].on})
-         /\ (~G.downB => s.has = <<>>)
+         \* (a ticker that had its last tick may have failed although its TickerFailed hook was not logged in time)
+         /\ (FinalOK(s) = TRUE)
          /\ UNCHANGED <<cfg, P, G>> /\ ev' = s
     [] OTHER -> FALSE /\ UNCHANGED vars     \* "panic" and anything unknown
 
@@ -105,10 +125,11 @@ Stimuli == [op : {"sb", "se", "xb", "xe", "started", "stopped", "failed"}, id : 
 Next == \E s \in Stimuli : Do(s)
 Spec == Init /\ [][Next]_vars
 Sane == \A i \in Ids : /\ P[i].n <= Limit /\ P[i].infl \in {0, 1}
-                       /\ (P[i].on => (G.evE < Idx(i) /\ P[i].n >= 0))
+                       /\ ((P[i].on /\ P[i].call # "X") => (G.evE < Idx(i) /\ P[i].n >= 0))
                        /\ (P[i].early => P[i].call = "S")
 (* whatever the spec accepts: a run of a ticker never has more than N + 2 ticks, TickerFailed closes the run, nothing    *)
 (* happens to a ticker once Shutdown returned                                                                          *)
-FailedCloses == [][ev'.op = "failed" => (P[ev'.id].on /\ ~P'[ev'.id].on /\ P[ev'.id].n + 1 >= Limit)]_vars
+FailedCloses == [][ev'.op = "failed" => \/ (P[ev'.id].pendF /\ ~P'[ev'.id].pendF)
+                                        \/ (P[ev'.id].on /\ ~P'[ev'.id].on /\ P[ev'.id].n + 1 >= Limit)]_vars
 QuietAfterShutdown == [][G.downE => ~(ev'.op = "failed" \/ (ev'.op = "tick" /\ ev'.src = "retry"))]_vars
 ==============================================================================
